@@ -43,6 +43,13 @@ def preludeCase (w : List String) : Option String :=
   | ["reduce", l, b] => (binOf b).map (fun b => match reduceM b (csvInts l) with
       | some v => out (toString v) none | none => "res=error")
   | ["join", l] => some (out (", ".intercalate ((csvInts l).map toString)) none)
+  | ["joins", l, d] =>
+      let words := (l.splitOn ",").map (fun t => if t == "E" then "" else t)
+      let delim := if d == "c" then "," else if d == "cs" then ", " else if d == "e" then "" else "--"
+      some (out (showInts ((delim.intercalate words).toList.map (fun c => (c.toNat : Int)))) none)
+  | ["to_strings", l] =>
+      let words := (l.splitOn ",").map (fun t => if t == "E" then "" else t)
+      some (out (showInts (("[" ++ ", ".intercalate words ++ "]").toList.map (fun c => (c.toNat : Int)))) none)
   | ["to_string", l] => some (out ("[" ++ ", ".intercalate ((csvInts l).map toString) ++ "]") none)
   | ["generate_range", x, y] => do let x ← parseInt? x; let y ← parseInt? y; pure (out (showInts (genRange x y)) none)
   | ["zip_with", b, l1, l2] => (binOf b).map (fun b => out (showInts (zipWithInto b (csvInts l1) (csvInts l2) [])) none)
